@@ -1,7 +1,9 @@
 (* C01 — Write/read round trip is exact, ordered, complete for every configuration.
-   Statements only.  The full statement C01_roundtrip (DESIGN 5) composes the block-level round
-   trip below with the writer tree invariant W and the reader refinement R; the parts proved so
-   far are listed here, the rest is validated by the correspondence (see evidence.not_proved). *)
+   Statements only.  C01_roundtrip (at the end) is the whole-file statement on the models: it
+   composes the block-level round trip with the writer tree invariant W (WriterTree, WriterStore)
+   and the reader refinement R (ReaderRefine).  Hypothesis of C01_roundtrip that is not part of the
+   property: the writer run finishes (progress of the writer model on sorted input is validated by
+   the correspondence, not proved); the empty file is covered by the correspondence only. *)
 From Grenad.model Require Import Base Block Trailer Spec Format.
 From Grenad.proofs Require Import BlockProofs FormatProofs TrailerProofs.
 
@@ -46,3 +48,40 @@ Theorem C01_scan_backward : forall ld root levels bstore, wf_store ld root level
     rs = map Some (rev (content root levels bstore)) ++ [None].
 Proof. exact scan_backward. Qed.
 Print Assumptions C01_scan_backward.
+
+(* ================= the whole file, end to end on the models =================
+   ANY configuration (codec with decompress inverting compress, level, block size, interval >= 1,
+   index levels 0..255) and ANY non-empty strictly ascending entry sequence on which the writer
+   model finishes: the file opens and reports exactly the written trailer — entry count = number of
+   inserts, the configured codec — and from a fresh cursor move_on_next returns exactly the inserted
+   entries in order and then None, move_on_prev exactly their reverse and then None.
+   (mem_ok: every block buffer is shorter than 2^64 bytes, as any Vec is.) *)
+From Grenad.model Require Import Writer.
+From Grenad.proofs Require Import WriterStore.
+
+Theorem C01_roundtrip : forall compress decompress c,
+  (forall b z, compress (wc_codec c) (wc_level c) b = Done z -> decompress (wc_codec c) z = Done b) ->
+  forall es i s lg m, wc_levels c < 256 -> 1 <= wc_interval c -> wc_codec c <= 5 ->
+  w_run_gen vsink vs_wr vs_fl vs_count compress c vs_empty es = (i, Done (s, lg, m)) ->
+  es <> [] -> sorted_strictb (map fst es) = true ->
+  len (vs_bytes s) < 2^64 -> mem_ok lg -> len es < 2^64 ->
+  open_meta (vs_bytes s) = Done m /\ m_count m = len es /\ m_codec m = wc_codec c /\
+  let ld := load_block decompress (vs_bytes s) (m_codec m) in
+  (exists st rs, run_ops ld (m_root m) (m_levels m) cs_fresh (repeat ONext (S (length es))) = Done (st, rs) /\
+                 rs = map Some es ++ [None]) /\
+  (exists st rs, run_ops ld (m_root m) (m_levels m) cs_fresh (repeat OPrev (S (length es))) = Done (st, rs) /\
+                 rs = map Some (rev es) ++ [None]).
+Proof. exact written_file_roundtrip. Qed.
+Print Assumptions C01_roundtrip.
+
+(* the hypotheses are satisfiable: a two-level file with one-entry blocks *)
+Example C01_roundtrip_example :
+  let c := mk_wcfg 0 0 1 1 2 in
+  let es := [([], [1]); ([0], []); ([0; 255], [2; 3]); ([1], [4]); ([1; 0], [5])] in
+  match w_run_gen vsink vs_wr vs_fl vs_count compress_none c vs_empty es with
+  | (_, Done (s, lg, m)) =>
+      sorted_strictb (map fst es) && (len (vs_bytes s) <? 2^64) &&
+      forallb (fun e => len (em_bytes e) <? 2^64) lg && (6 <=? len lg) && (m_levels m =? 2)
+  | _ => false
+  end = true.
+Proof. vm_compute. reflexivity. Qed.
